@@ -23,14 +23,15 @@ const modulePath = "github.com/google/safehtml"
 
 // Program is everything the rules may look at.
 type Program struct {
-	RepoDir string
-	Fset    *token.FileSet
-	Pkgs    map[string]*packages.Package // by import path, repo packages only
-	All     map[string]*packages.Package // every package in the import closure
-	SSA     *ssa.Program
-	SSAPkgs map[string]*ssa.Package // by import path (all)
-	GOOS    string
-	GOARCH  string
+	findingRoot bool
+	RepoDir     string
+	Fset        *token.FileSet
+	Pkgs        map[string]*packages.Package // by import path, repo packages only
+	All         map[string]*packages.Package // every package in the import closure
+	SSA         *ssa.Program
+	SSAPkgs     map[string]*ssa.Package // by import path (all)
+	GOOS        string
+	GOARCH      string
 
 	NumFuncs int // repo source functions with SSA bodies
 
@@ -149,6 +150,7 @@ func LoadProgram(goos, goarch string, needSSA bool) (*Program, error) {
 	}
 	buildCanon(p)
 	theProgram = p
+	p.Func("template", "escapeTemplate") // resolves the root analysis by its role when the name is gone
 	foldedTables = map[*ssa.Global]*[]int64{}
 	return p, nil
 }
@@ -214,6 +216,20 @@ func (p *Program) Func(rel, name string) *ssa.Function {
 		f = idx[strings.Replace(strings.TrimPrefix(name, "(*"), ")", "", 1)]
 	}
 	if f == nil {
+		if rel == "template" && name == "escapeTemplate" && !p.findingRoot {
+			// the root analysis by its role: what both execution gates call and test
+			p.findingRoot = true
+			g := findRootAnalysis(p)
+			p.findingRoot = false
+			if g != nil {
+				if obj, ok := g.Object().(*types.Func); ok {
+					canonObj[obj] = name
+					idx[name] = obj
+					canonNotes = append(canonNotes, "function "+g.Name()+" plays the part of escapeTemplate of the baseline (called and tested by both execution gates)")
+				}
+				return g
+			}
+		}
 		return nil
 	}
 	return p.SSA.FuncValue(f)
